@@ -83,6 +83,16 @@ def install(M):
     M.env['authorship::ignore::build_ignore_matcher'] = matcher
     M.env[CP + '::get_all_tracked_files'] = tracked
 
+    def status_of_files(P, c, args, dt):
+        sk = args[3]
+        P.state.setdefault('c14_status', []).append(bool(sk.v) if isinstance(sk, Sc) and sk.concrete else None)
+        return ok(VecV([]))
+
+    def should_ignore(P, c, args, dt):
+        return FALSE
+    M.env[CP + '::get_status_of_files'] = status_of_files
+    M.env['authorship::ignore::should_ignore_file_with_matcher'] = should_ignore
+
 
 def plan(tier, seed):
     tasks = []
@@ -98,6 +108,9 @@ def plan(tier, seed):
     for n in range(1, nck + 1):
         for files in itertools.product(('a', 'b', 'ab'), repeat=n):
             tasks.append(('prune_select', {'files': list(files)}))
+    for kinds in ([], ['Human'], ['AiAgent'], ['AiAgent', 'Human'], ['Human', 'AiTab'], ['Human', 'Human']):
+        for pre in (True, False):
+            tasks.append(('pre_commit_untracked', {'kinds': kinds, 'pre_commit': pre}))
     for n in range(0, 4):
         for kinds in itertools.product(('AiAgent', 'Human', 'AiTab'), repeat=n):
             if n == 3 and 'AiTab' in kinds:
@@ -296,13 +309,68 @@ def ob_pre_commit_skip(h, shape):
     h.sample = h.witness()
 
 
-OBLIGATIONS = {'repeat': ob_repeat, 'changed': ob_changed, 'prune_select': ob_prune_select, 'pre_commit_skip': ob_pre_commit_skip}
+def ob_pre_commit_untracked(h, shape):
+    """K4b: the commit-time checkpoint may leave untracked files out only while no AI checkpoint exists: an untracked
+    file an agent created (and checkpointed) must be looked at again at commit time"""
+    P = h.P
+    M = P.M
+    wl = c03.mk_wl(M)
+    P.state['wl'] = wl
+    P.state['fs'] = {'/wl': 'DIR', '/w/a': StringV(list(b'x\n'))}
+    stats = Agg('authorship::working_log::CheckpointLineStats', [Sc(0, 32) for _ in M.src.struct_fields('authorship::working_log::CheckpointLineStats')])
+    cks = []
+    for i, kind in enumerate(shape['kinds']):
+        who = 'human' if kind == 'Human' else 's1'
+        la = [mk_struct(M, LATTR, start_line=Sc(1, 32), end_line=Sc(1, 32), author_id=pystring(who), overrode=none())] if kind != 'Human' else []
+        entry = mk_struct(M, WLE, file=pystring('a'), blob_sha=pystring('b%d' % i), attributions=VecV([]), line_attributions=VecV(la))
+        cks.append(mk_struct(M, CKPT, kind=mk_enum(M, KIND, kind), diff=pystring('d'), author=pystring('x'), entries=VecV([entry]),
+                             timestamp=Sc(i, 64), transcript=none(), agent_id=none(), agent_metadata=none(), line_stats=stats,
+                             api_version=pystring('checkpoint/1.0.0'), git_ai_version=none()))
+    v = VecV(cks)
+    r = P.call_named(PWL + '::write_all_checkpoints', [Ref(Cell(wl)), SliceRef(v, 0, len(cks))])
+    if r.var != 'Ok':
+        raise Unsupported('seeding checkpoints failed')
+    pre = shape['pre_commit']
+    h.inputs_struct = {'kinds': shape['kinds'], 'pre_commit': pre}
+    repo = c03.mk_repo(M)
+    P.state['c14_status'] = []
+    try:
+        r = P.call_named(CP + '::get_all_tracked_files', [Ref(Cell(repo)), pystr('head'), Ref(Cell(wl)), none(), Sc(pre, 0), Ref(Cell(Opaque('IgnoreMatcher', None)))])
+    except Panic as e:
+        h.panic('K4-tracked-no-panic', e.msg)
+        return
+    calls = P.state['c14_status']
+    h.require(len(calls) == 1, 'K4-one-status-call', '%d status calls' % len(calls))
+    if len(calls) != 1:
+        return
+    has_ai = any(k != 'Human' for k in shape['kinds'])
+    skip = calls[0]
+    if has_ai or not pre:
+        h.require(skip is False, 'K4-untracked-files-are-looked-at-while-AI-state-exists',
+                  'untracked files are skipped although %s' % ('an AI checkpoint exists' if has_ai else 'this is not the commit-time checkpoint'))
+    else:
+        h.require(True, 'K4-untracked-may-be-skipped')
+    h.sample = h.witness()
+
+
+OBLIGATIONS = {'repeat': ob_repeat, 'changed': ob_changed, 'prune_select': ob_prune_select, 'pre_commit_skip': ob_pre_commit_skip,
+               'pre_commit_untracked': ob_pre_commit_untracked}
 MUST_COVER = ['K4-skipped', 'K4-ran']
 
 
 def replay(v, native):
     inp = v['inputs']
     ob = v['obligation']
+    if ob.startswith('K4') and 'pre_commit' in inp:
+        r = native('c14_pre_commit_untracked', inp)
+        if 'panic' in r:
+            return {'reproduced': v['kind'] == 'panic', 'native': r}
+        if v['kind'] == 'panic':
+            return {'reproduced': False, 'native': r}
+        has_ai = any(k != 'Human' for k in inp['kinds'])
+        res = r.get('run', {}).get('result') or [0, 0, 0]
+        bad = {'K4-untracked-files-are-looked-at-while-AI-state-exists': (has_ai or not inp['pre_commit']) and r.get('run', {}).get('ok') and res[1] == 0}
+        return {'reproduced': bool(bad.get(ob)), 'native': r}
     if ob.startswith('K4'):
         if inp.get('inter_commit_move'):
             return {'reproduced': False, 'note': 'the feature flag cannot be switched natively'}
